@@ -4,7 +4,7 @@
 set -e
 V="$(cd "$(dirname "$0")/.." && pwd)"
 R="${ZVBI_REPO:-/repo}"
-W="$1"; T="${2:-600}"; J="${3:-8}"
+W="$1"; T="${2:-600}"; J="${3:-8}"; TGT="${4:-dec_fuzz}"
 mkdir -p "$W/obj" "$W/corpus" "$W/crashes"
 CF="-std=gnu99 -D_GNU_SOURCE -DHAVE_CONFIG_H -D_REENTRANT -w -O1 -g -fno-omit-frame-pointer -I$R -I$R/src"
 SAN="-fsanitize=address,undefined -fno-sanitize=shift-base,bounds,pointer-overflow -fno-sanitize-recover=all"
@@ -17,7 +17,7 @@ for f in $SRCS; do
   while [ "$(jobs -r | wc -l)" -ge 16 ]; do sleep 0.1; done
 done
 wait
-clang-14 $CF $SAN -fsanitize=fuzzer -I"$V/harness" "$V/harness/dec_fuzz.c" "$W"/obj/*.o -lm -lpthread -lpng -lz -o "$W/dec_fuzz"
+clang-14 $CF $SAN -fsanitize=fuzzer -I"$V/harness" "$V/harness/$TGT.c" "$W"/obj/*.o -lm -lpthread -lpng -lz -o "$W/dec_fuzz"
 clang-14 $CF $SAN -DDEC_FUZZ_STANDALONE -I"$V/harness" "$V/harness/dec_fuzz.c" $(for f in $SRCS; do echo "$R/src/$f"; done) -lm -lpthread -lpng -lz -o "$W/dec_fuzz_dump" 2>/dev/null || true
 cd "$W"
 ASAN_OPTIONS=detect_leaks=1 ./dec_fuzz -fork=$J -ignore_crashes=1 -max_len=8192 -max_total_time=$T -artifact_prefix=crashes/ -timeout=10 corpus > fuzz.log 2>&1 || true
